@@ -17,7 +17,7 @@ Open Scope string_scope.
 
 Theorem C01_solved_rows_are_balanced : forall O db ban fuel t tmsg ins rows st,
   run O db ban fuel t tmsg ins = Done (rows, st) ->
-  Forall2 (fun s r => solved r = true -> bal O (rxn r) = true) (admitted O ins) rows.
+  Forall2 (fun s r => solved r = true -> bal O (rxn r) = true) (kept_inputs O ins) rows.
 Proof. exact run_solved_validated. Qed.
 
 (* the same, per row *)
